@@ -463,7 +463,7 @@ func main() {
 	redirectCases(w, g, total*6/100)
 	bearerCases(w, g, total*4/100)
 	authCases(w, g, total*10/100)
-	forwardedCases(w, g, total*4/100)
+	forwardedCases(w, g, total*6/100)
 	routeCases(w, g, total*26/100)
 	clientCases(w, g, total*15/100)
 	chainCases(w, g, total*8/100)
